@@ -218,7 +218,7 @@ func (e *DNSEntry) decodeRRs(count int, p DNS, offset int, buffer []byte) (int, 
 
 		case 5: // CNAME
 			var cname []byte
-			tmpBuf = buffer
+			// decode after the owner name: name still points into tmpBuf
 			cname, _, err = decodeName(p, endq+10, &tmpBuf, 1)
 			if err != nil {
 				return 0, false, fmt.Errorf("invalid CNAME data: %w", err)
